@@ -363,9 +363,17 @@ class FSM:
             and self.transitioning != Status.active
         ):
             raise transitions.MachineError(
-                f'While in {self.state} cannot be {status.name()} while {self.__transitioning.name}'
+                f'While in {self.state} cannot be {status.name} while {self.__transitioning.name}'
             )
         self.__transitioning = status
+
+    def at_rest_only(self):
+        '''before= guard of the edges without one: refuse the trigger while a
+        background step is outstanding, before the state moves'''
+        if self.transitioning != Status.active:
+            raise transitions.MachineError(
+                f'While in {self.state} cannot take a trigger while {self.__transitioning.name}'
+            )
 
     def archive(self):
         self.transitioning = Status.entering
